@@ -42,15 +42,36 @@ Definition fix_url_host (u : url) : outcome url :=
       Ok {| u_scheme := u_scheme u; u_host := h; u_path := p |}
   end.
 
-(* net/url stripPort, as used by URL.Hostname *)
+(* net/url (go >= 1.13) URL.Hostname = splitHostPort: the part after the LAST colon is dropped when
+   it is a valid optional port (":" followed by digits only, possibly none); then one pair of
+   square brackets is removed *)
 Definition rbrack : N := 93.
+Definition lbrack : N := 91.
 Definition colon : N := 58.
+
+Fixpoint last_index_from (c : N) (s : bytes) (i : Z) (acc : Z) : Z :=
+  match s with
+  | [] => acc
+  | x :: r => last_index_from c r (i + 1)%Z (if x =? c then i else acc)
+  end.
+Definition last_index_byte (c : N) (s : bytes) : Z := last_index_from c s 0%Z (-1)%Z.
+
+Definition is_digit_b (c : N) : bool := (48 <=? c) && (c <=? 57).
+Definition valid_optional_port (p : bytes) : bool :=
+  match p with
+  | [] => true
+  | c :: r => (c =? colon) && forallb is_digit_b r
+  end.
+
 Definition hostname (h : bytes) : bytes :=
-  let c := index_byte colon h in
-  if (c <? 0)%Z then h
-  else let i := index_byte rbrack h in
-       if (0 <=? i)%Z then trim_prefix [91] (firstn (Z.to_nat i) h)
-       else firstn (Z.to_nat c) h.
+  let c := last_index_byte colon h in
+  let host := if (0 <=? c)%Z && valid_optional_port (skipn (Z.to_nat c) h)
+              then firstn (Z.to_nat c) h else h in
+  match host with
+  | x :: r => if (x =? lbrack) && (match rev r with y :: _ => y =? rbrack | [] => false end)
+              then rev (tl (rev r)) else host
+  | [] => host
+  end.
 
 (* template.go matchPath *)
 Fixpoint match_items (tpl path : list bytes) (acc : list (bytes * bytes)) : option (list (bytes * bytes)) :=
